@@ -1,8 +1,9 @@
 #!/bin/bash
 # tools/run-all.sh [tier] [ids...] - runs every claimed check once, prints exit code and wall time
 tier=${1:-quick}; shift
-ids=${@:-$(python3 -c "import json;print(' '.join(c['property_id'] for c in json.load(open('/verif/MANIFEST.json'))['checks']))")}
-cd /verif
+root=$(cd "$(dirname "$0")/.." && pwd)
+ids=${@:-$(python3 -c "import json;print(' '.join(c['property_id'] for c in json.load(open('$root/MANIFEST.json'))['checks']))")}
+cd $root
 for id in $ids; do
   t0=$(date +%s)
   out=$(./check $id $tier 2>&1); rc=$?
